@@ -173,12 +173,13 @@ theorem qr_order_safe_prime (q : Nat) (hq : q.Prime) (hpq : p = 2 * q + 1) (x : 
 
 /-! ### QR encode / decode -/
 
-theorem qr_decode_encode (gap m M Z : Nat) (hgap : 0 < gap) (hgp : gap < p)
+theorem qr_decode_encode (gap m M Z : Nat) (signed : Bool) (hgp : gap < p)
     (hm : (m + 1) * gap ≤ p) (h : qrEncode? p gap m = some (M, Z)) :
-    qrDecode? p gap M Z = some m := by
+    qrDecode? p gap M Z signed = some (m : Int) := by
   unfold qrEncode? at h
   obtain ⟨i, hi, hsome⟩ := List.exists_of_findSome?_eq_some h
   rw [List.mem_range'_1] at hi
+  have hgap : 2 ≤ gap := by omega
   split at hsome
   · simp only at hsome
     split at hsome
@@ -189,9 +190,10 @@ theorem qr_decode_encode (gap m M Z : Nat) (hgap : 0 < gap) (hgp : gap < p)
       have hlt : m * gap + i < p := by omega
       have hM' : M = m * gap + i := by rw [← hM, Nat.mod_eq_of_lt hlt]
       have hZ' : Z = i := by rw [← hZ, Nat.mod_eq_of_lt (by omega)]
-      have hmp : m < p := by
-        have : m ≤ m * gap := Nat.le_mul_of_pos_right m hgap
+      have h2m : 2 * m + 2 ≤ p := by
+        have : (m + 1) * 2 ≤ (m + 1) * gap := Nat.mul_le_mul_left _ hgap
         omega
+      have hmp : m < p := by omega
       unfold qrDecode? invMod?
       have hg : gap % p ≠ 0 := by rw [Nat.mod_eq_of_lt hgp]; omega
       simp only [hg, if_false, Option.map_some, Option.some.injEq]
@@ -204,7 +206,11 @@ theorem qr_decode_encode (gap m M Z : Nat) (hgap : 0 < gap) (hgp : gap < p)
         push_cast
         rw [ZMod.natCast_self, add_zero, mul_assoc, mul_inv_cancel₀ hg', mul_one]
       have := (ZMod.natCast_eq_natCast_iff' _ _ p).1 hcast
-      rwa [Nat.mod_mod, Nat.mod_eq_of_lt hmp] at this
+      rw [Nat.mod_mod, Nat.mod_eq_of_lt hmp] at this
+      rw [this]
+      unfold fieldInt
+      have : ¬ (m > p / 2) := by omega
+      simp [this]
     · simp at hsome
   · simp at hsome
 
